@@ -1,6 +1,8 @@
 package c19
 
 import (
+	_ "embed"
+	"encoding/json"
 	"fmt"
 
 	"verif/core"
@@ -48,26 +50,21 @@ var exprCorpus = []struct{ expr, expect string }{
 
 func vs(s string) string { return "VS" + jm.S(s).Quote() }
 
-// known minimal failing inputs (kept so that every listed finding is reached first, deterministically)
+// regression.json: the minimal failing case of every listed finding (the "case" objects of the replay files),
+// run first so that the quick tier reaches each of them deterministically, whatever the budget.
+//
+//go:embed regression.json
+var regressionJSON []byte
+
 func regressionCases() []*Case {
-	n := func(leaf string) *Node { return leafNode(leaf) }
-	a := func(k ...*Node) *Node { return &Node{Kind: "arr", Kids: k} }
-	o := func(key string, k *Node) *Node { return &Node{Kind: "obj", Keys: []string{key}, Kids: []*Node{k}} }
-	return []*Case{
-		parseCase(jm.S("1"), "null"),
-		parseCase(jm.S("1E+400"), "absent"),
-		parseCase(jm.S("1.7976931348623159e308"), "absent"),
-		{Op: "stringify", Value: a(a(), a(n("1"))), Replacer: "none", Indent: "1"},
-		{Op: "stringify", Value: a(&Node{Kind: "obj"}, a(n("1"))), Replacer: "none", Indent: "1"},
-		{Op: "stringify", Value: a(o("a", n("undefined")), a(n("1"))), Replacer: "none", Indent: "1"},
-		{Op: "stringify", Value: a(n("1")), Replacer: "none", Indent: "1e30"},
-		{Op: "stringify", Value: a(n("1")), Replacer: "none", Indent: "inf"},
-		{Op: "stringify", Value: a(n("1")), Replacer: "none", Indent: "nonascii11"},
-		{Op: "stringify", Value: a(n("1")), Replacer: "none", Indent: "e-acute"},
-		{Op: "stringify", Value: a(n("1")), Replacer: "none", Indent: "astral-odd"},
-		{Op: "stringify", Value: n("box:symbol"), Replacer: "none", Indent: "absent"},
-		{Op: "marshal", Value: n("box:symbol")},
+	var cs []*Case
+	if err := json.Unmarshal(regressionJSON, &cs); err != nil {
+		panic("c19: regression.json: " + err.Error())
 	}
+	for _, c := range cs {
+		c.Got, c.Want = "", ""
+	}
+	return cs
 }
 
 func runCorpus(r *core.Run, cache *sigCache, bounds map[string]interface{}) bool {
